@@ -5,8 +5,12 @@ from . import core, eng, gen, engcheck
 THEOREMS = ["timeout_true_complete", "timeout_false_sound", "interrupted_between", "resume_complete", "lattice_timeout_sound", "lattice_resume_complete", "timeout_false_sound_agg", "timeout_false_sound_agg_from", "resume_complete_agg",
             "timeout_sound_phys", "timeout_true_complete_phys", "resume_complete_phys", "timeout_false_sound_phys_agg", "timeout_true_complete_phys_agg", "resume_complete_phys_agg", "negA_interrupted", "timeout_sound_physLat", "resume_complete_physLat",
             "timeout_never_panics_physPar", "timeout_sound_physPar", "timeout_true_complete_physPar", "interrupted_between_physPar", "resume_complete_physPar", "resume_timeout_complete_physPar", "tcPar_timeout", "tcPar_interrupted",
-            "timeout_never_panics_physParLat", "timeout_sound_physParLat", "timeout_true_complete_physParLat", "interrupted_between_physParLat", "resume_complete_physParLat", "distPar_timeout", "distPar_interrupted"]
-TRUSTED = ["Props/C14PhysParLat.lean (Model/EnginePhysParLatTimeout.lean, Proofs/PhysParLatTimeout.lean): run_timeout of an ascent_par! program WITH lattices - every schedule, pool, rule-scheduling mode, deadline and fuel, "
+            "timeout_never_panics_physParLat", "timeout_sound_physParLat", "timeout_true_complete_physParLat", "interrupted_between_physParLat", "resume_complete_physParLat", "distPar_timeout", "distPar_interrupted",
+            "timeout_never_panics_physPar_agg", "timeout_false_sound_physPar_agg", "timeout_true_complete_physPar_agg", "timeout_true_model_physPar_agg", "interrupted_between_physPar_agg", "resume_complete_physPar_agg", "negPar_timeout", "negPar_interrupted"]
+TRUSTED = ["Props/C14PhysParAgg.lean (Proofs/PhysParAggTimeout.lean): run_timeout of ascent_par! programs WITH stratified aggregation / negation - never panics (timeout_never_panics_physPar_agg); `true` = the stratified model "
+           "(timeout_true_model_physPar_agg); relative to a completed reference run: an interrupted call leaves a well-formed value between the original rows and the reference result (timeout_false_sound_physPar_agg) and after any "
+           "history of interrupted calls, each with its own schedule / pool / deadline, a completing run() ends with the reference run's facts (resume_complete_physPar_agg); tied by `eng runtopp` / `eng runpp` on parallel aggregation programs",
+           "Props/C14PhysParLat.lean (Model/EnginePhysParLatTimeout.lean, Proofs/PhysParLatTimeout.lean): run_timeout of an ascent_par! program WITH lattices - every schedule, pool, rule-scheduling mode, deadline and fuel, "
            "from every legal value (well-formed, one row per key): no panic; what it leaves is legal again, keeps every plain row and every lattice key with a value above the old one, and lies below every closed database "
            "(timeout_sound_physParLat); `true` = closed and least (timeout_true_complete_physParLat); after any history of interrupted calls a completing run() in any pool is closed w.r.t. the ORIGINAL input and least "
            "(resume_complete_physParLat); needs the flag law of join_mut as runPhysParLat_spec does; tied by `eng runtoppl` / `eng runppl` on ascent_par! lattice programs under every crash point",
@@ -233,7 +237,7 @@ def canon(c, out):
 
 
 def check(tier, replay=None):
-    return engcheck.run_property("C14", tier, modules=["AscentVerif.Props.C14", "AscentVerif.Props.C13L", "AscentVerif.Props.C13Agg", "AscentVerif.Props.C13Phys", "AscentVerif.Props.C13PhysAgg", "AscentVerif.Props.C13PhysLat", "AscentVerif.Props.C14PhysPar", "AscentVerif.Props.C14PhysParLat"], theorems=THEOREMS, trusted=TRUSTED, group="c14",
+    return engcheck.run_property("C14", tier, modules=["AscentVerif.Props.C14", "AscentVerif.Props.C13L", "AscentVerif.Props.C13Agg", "AscentVerif.Props.C13Phys", "AscentVerif.Props.C13PhysAgg", "AscentVerif.Props.C13PhysLat", "AscentVerif.Props.C14PhysPar", "AscentVerif.Props.C14PhysParLat", "AscentVerif.Props.C14PhysParAgg"], theorems=THEOREMS, trusted=TRUSTED, group="c14",
                                  build=build, oracle=oracle, canon=canon, what="run_timeout histories on compiled programs under the virtual clock",
                                  rule="generated programs compiled with #![generate_run_timeout] x inputs x EVERY crash point k = 0..13 (k-th clock reading fires; "
                                       "beyond the last reading the call completes) followed by run(), plus repeated interruptions k1 k2 .. then completion; after "
